@@ -40,10 +40,10 @@ inductive PanicSite
   | chunksZero            -- `data.chunks(in_len)` with `in_len = 0` (:812, :822, :840, :854)
   | resetDimUnderflow     -- `self.info.width - fctl.x_offset` (:1022-1023, :1554-1555)
   | animWrittenOverflow   -- `animation_written += 1` (:875, :1270)
-  | rowSlice              -- `self.curr_buf[..self.line_len][self.index..]` out of range (:1739); reachable: N12
-  | unreachableWrapper    -- the `unreachable!()` arms on `Wrapper` (:1678, :1679, :1703, :1731, :1732, :1756)
+  | rowSlice              -- `self.curr_buf[..self.line_len][self.index..]` out of range (:1741)
+  | unreachableWrapper    -- the `unreachable!()` arms on `Wrapper` (:1678, :1679, :1705, :1733, :1734, :1758)
   | assertIndexZero       -- `assert_eq!(self.index, 0)` (:1254)
-  | toWriteUnderflow      -- `self.to_write -= written` (:1741)
+  | toWriteUnderflow      -- `self.to_write -= written` (:1743)
 deriving DecidableEq, Repr
 
 inductive Res
@@ -602,7 +602,13 @@ structure CW where
   curr : Ty
 deriving DecidableEq, Repr
 
-def chunkCap : Nat := 2 ^ 31 - 1   -- `u32::MAX as usize >> 1` (:1210)
+/-- the largest chunk buffer: `CAP = u32::MAX as usize >> 1` (:1210) -/
+def chunkCap : Nat := 2 ^ 31 - 1
+/-- the smallest chunk buffer: room for a sequence number and one byte, `CAP.min(buf_len).max(5)` (:1211) -/
+def streamMinBuffer : Nat := 5
+/-- `DEFAULT_BUFFER_LENGTH` (:534): `stream_writer()` / `into_stream_writer()` are the `_with_size` forms with
+    this size (:1097-1118) -/
+def defaultBufferLength : Nat := 4096
 
 /-- the kind of data chunk of the next image: like `write_image_data`, the first image is an IDAT and
     so is every image written after the animation is complete (:1211-1215, :1259-1263) -/
@@ -611,7 +617,7 @@ def chunkKind (w : WState) : Ty :=
 
 /-- `ChunkWriter::new` (:1203-1223): the buffer has room for a sequence number and one byte -/
 def CW.new (w : WState) (bufLen : Nat) : CW :=
-  { w, cap := max (min chunkCap bufLen) 5, curr := chunkKind w }
+  { w, cap := max (min chunkCap bufLen) streamMinBuffer, curr := chunkKind w }
 
 /-- `next_frame_info` (:1231-1249): `in_len.checked_mul(height).unwrap_or(usize::MAX)` -/
 def CW.nextFrameInfo (c : CW) : Nat × Nat :=
@@ -823,7 +829,9 @@ def SW.finishImage (Z : ZCodec) (s : SW) : SW × Res :=
     | _ => (s, .ok)
   | r => r
 
-/-- `new_frame` (:1671-1707): the frame header is written BEFORE the row geometry is changed -/
+/-- `new_frame` (:1671-1709): the frame header is written BEFORE the row geometry is changed; the frame starts
+    at the beginning of its first row (`self.index = 0`, repair c724280: a row of the last frame whose write
+    failed is not carried over) -/
 def SW.newFrame (s : SW) : SW × Res :=
   match s.wr with
   | .unrecoverable => (s, .err .unrecoverable)
@@ -841,7 +849,7 @@ def SW.newFrame (s : SW) : SW × Res :=
         let info := cw.nextFrameInfo
         match cw.writeHeader with
         | (cw, .ok) =>
-          ({ s with wr := .zlib { cw }, lineLen := info.1, toWrite := info.2,
+          ({ s with wr := .zlib { cw }, index := 0, lineLen := info.1, toWrite := info.2,
                     prevBuf := List.replicate info.1 0,
                     curBuf := (s.curBuf ++ List.replicate info.1 0).take info.1 }, .ok)
         | (cw, r) => ({ s with wr := .chunk cw }, r)
